@@ -180,9 +180,9 @@ def documented_path(ip, st, name):
 def uncompressed_hex_of(ip, st, device_answer_hex):
     """hex of the uncompressed encoding of the key the device answered (ecdsa from_string / to_string: uninterpreted)"""
     from pyvc import values as V
-    from spec.crypto_ext import p256_key, p256_str
+    from spec.crypto_ext import k1_key, p256_str
     from pyvc.values import to_term, as_value
-    return as_value("str", V.hexs(p256_str(p256_key(V.unhex(to_term(device_answer_hex))), tm.Str("uncompressed"))))
+    return as_value("str", V.hexs(p256_str(k1_key(V.unhex(to_term(device_answer_hex))), tm.Str("uncompressed"))))
 
 
 @contract("admin/pubkeys.py", "do_get_pubkeys", serves=["C18"])
@@ -193,7 +193,7 @@ class DoGetPubkeys(Contract):
     params = dict(options=OPTS(pin=ONEOF(NONE_, STR_), output_file_path=ONEOF(NONE_, STR_)))
     exception_serves = ()
     max_paths = 20000
-    assumptions = ["ecdsa VerifyingKey.from_string / to_string as uninterpreted functions (the curve argument is not modelled)",
+    assumptions = ["ecdsa VerifyingKey.from_string(curve=SECP256k1) / to_string as uninterpreted functions (a key parsed on another curve is a different value: the specification side names the secp256k1 parser)",
                    "json.dumps and the text-file writes of the export are assumed (spec/fs.py, spec/server_io.py)"]
 
     def asked_for_the_documented_path(arg_key_id, path_name):
